@@ -43,3 +43,5 @@ Fixpoint orun_partial (s : S) (xs : list X) : list Y * bool :=
               | Some (s', y) => let '(ys, p) := orun_partial s' r in (y :: ys, p)
               | None => ([], true) end end.
 End OMachine.
+
+Definition omap_outputs {Y} (o : option (list Y)) : option (list Y) := o.
